@@ -4,6 +4,17 @@ open Common
 let big_of s l = (z_of_hex s, zlist_of_string l)
 let string_of_big (s, l) = hex_of_z s ^ " " ^ string_of_zlist l
 
+(* numbers: f:<signed hex> | b:<sign>:<words> *)
+let num_of s =
+  match String.split_on_char ':' s with
+  | ["f"; z] -> Fix (z_of_hex z)
+  | ["b"; sg; ws] -> Big (z_of_hex sg, zlist_of_string ws)
+  | _ -> failwith ("bad num " ^ s)
+let string_of_num = function
+  | Fix z -> "f:" ^ hex_of_z z
+  | Big (s, d) -> "b:" ^ hex_of_z s ^ ":" ^ string_of_zlist d
+let mulfuel a b = nat_of_int (2 * (List.length a + List.length b) + 16)
+
 let string_of_res = function
   | Val l -> "V " ^ string_of_zlist l
   | Bool b -> "B " ^ string_of_bool b
@@ -18,6 +29,34 @@ let handle = function
   | ["compare_abs"; a; b] -> hex_of_z (compare_abs (zlist_of_string a) (zlist_of_string b))
   | ["bignum_add"; sa; a; sb; b] -> string_of_big (bignum_add (big_of sa a) (big_of sb b))
   | ["bignum_sub"; sa; a; sb; b] -> string_of_big (bignum_sub (big_of sa a) (big_of sb b))
+  | ["fxadd"; a; b] -> string_of_zlist (fxadd (zlist_of_string a) (z_of_hex b))
+  | ["fxsub"; sa; a; b] ->
+     let (r, c) = fxsub (big_of sa a) (z_of_hex b) in
+     if c <> Z0 then "ERR borrow-out" else string_of_big r
+  | ["fxmul"; a; b; off] -> string_of_zlist (fxmul (zlist_of_string a) (z_of_hex b) (nat_of_int (int_of_string off)))
+  | ["fxdiv"; a; b; off] ->
+     let (q, r) = fxdiv (zlist_of_string a) (z_of_hex b) (nat_of_int (int_of_string off)) in
+     string_of_zlist q ^ " " ^ hex_of_z r
+  | ["fxrem"; sa; a; b] ->
+     (match fxrem (big_of sa a) (z_of_hex b) with Some z -> string_of_num (Fix z) | None -> "EXC")
+  | ["normalize"; sa; a] -> string_of_num (normalize (Big (z_of_hex sa, zlist_of_string a)))
+  | ["bignum_mul"; sa; a; sb; b] ->
+     let x = big_of sa a and y = big_of sb b in
+     (match bignum_mul (mulfuel (snd x) (snd y)) x y with Some r -> string_of_big r | None -> "FUEL")
+  | ["quot_rem"; sa; a; sb; b] ->
+     let x = big_of sa a and y = big_of sb b in
+     (match quot_rem (nat_of_int (2 * List.length (snd x) + 8)) (mulfuel (snd x) (snd y)) x y with
+      | QR (q, r) -> string_of_num q ^ " " ^ string_of_num r ^ " | " ^ string_of_big x ^ " " ^ string_of_big y
+      | QDivZero -> "DIVZERO"
+      | QFuel -> "FUEL")
+  | ["num_add"; a; b] -> string_of_num (num_add (num_of a) (num_of b))
+  | ["num_sub"; a; b] -> string_of_num (num_sub (num_of a) (num_of b))
+  | ["num_mul"; a; b] ->
+     let x = num_of a and y = num_of b in
+     let l = function Fix _ -> 1 | Big (_, d) -> List.length d in
+     (match num_mul (nat_of_int (2 * (l x + l y) + 16)) x y with Some r -> string_of_num r | None -> "FUEL")
+  | ["vm_add"; a; b] -> string_of_num (vm_add (num_of a) (num_of b))
+  | ["vm_sub"; a; b] -> string_of_num (vm_sub (num_of a) (num_of b))
   | f -> "ERR unknown request " ^ String.concat " " f
 
 let () = serve handle
